@@ -58,7 +58,7 @@ def run_case(c):
         before = snap(b)
         try:
             if op["mode"] == "grow":
-                o = b.allocate(b.capacity + op.get("extra", 64)); st["grew_to"] = int(b.capacity)
+                b.grow(op.get("extra", 64)); st["grew_to"] = int(b.capacity)   # relocates the storage like an allocation that does not fit
             elif op["mode"] == "misuse_ctx":
                 T(X.to_input(t, v, "py"), _buffer=b, _context=xo.ContextCpu())
             elif op["mode"] == "misuse_offset":
